@@ -177,7 +177,7 @@ def b_view(P, s, a, b, c, name):
 
 
 def b_perm(P, s, a, b, c, name):
-    pred = (lambda v: is_ft(v) and v.ndim == 2) if name == "t" else (lambda v: is_ft(v) and v.ndim >= 1)
+    pred = (lambda v: is_ft(v) and 1 <= v.ndim <= 2) if name == "t" else (lambda v: is_ft(v) and v.ndim >= 1)
     i = P.pick(s[0], pred)
     if i is None:
         return None
@@ -253,8 +253,18 @@ def _same_shape_partners(P, i, s, count, a):
     extra = []
     ops = []
     for k in range(count):
-        mode = (a // (5**k)) % 5
+        mode = (a // (6**k)) % 6
         j = None
+        if mode == 5 and isinstance(t, QBytesTensor) and t.axis is None and t.dtype in DTYPES:
+            # companion with a scale of EQUAL VALUE but ANOTHER float dtype (torch.equal does not compare dtypes)
+            odt = DTYPES[(DTYPES.index(t.dtype) + 1 + s[1 + k] % 2) % 3]
+            sc = t._scale.to(odt)
+            if float(sc.to(torch.float64)) == float(t._scale.to(torch.float64)) and float(sc) > 0:
+                x = gen.clamp_finite(_values(list(t.shape), odt, 1900 + s[1 + k], 1.0).to(torch.float64) * float(sc.to(torch.float64)) * 40, odt)
+                extra.append(("like-other-dtype", quantize_activation(x, t.qtype, sc)))
+                ops.append(("x", len(extra) - 1))
+                continue
+            mode = 0
         if mode == 4 and isinstance(t, QBytesTensor) and t.axis is None:
             # companion whose scale differs from t's by ONE unit in the last place (almost, but not, equal)
             sc = torch.nextafter(t._scale, torch.full_like(t._scale, float("inf")))
@@ -338,7 +348,10 @@ def b_copy(P, s, a, b, c, name):
     if name == "to_copy":
         return dict(f=lambda t: t.to("cpu", copy=True), ops=[i], klass="move", copyop=True)
     if name == "to_dtype":
-        dt = [torch.float32, torch.float16, torch.bfloat16, torch.float64][a % 4]
+        dt = [torch.float32, torch.float16, torch.bfloat16, torch.float64, torch.int32, torch.int64][a % 6]
+        if not dt.is_floating_point:
+            # a float tensor can be cast to an integer dtype (truncation): so can a quantized one, through its values
+            return dict(f=lambda t: t.to(dt), ops=[i], klass="pass", dtype_move=dt)
         return dict(f=lambda t: t.to(dt), ops=[i], klass="rescale", copyop=True, dtype_move=dt)
     if name == "to_meta":
         return dict(f=lambda t: t.to("meta"), ops=[i], klass="meta")
@@ -383,9 +396,14 @@ def b_copy_(P, s, a, b, c, name):
         else:
             srcop = ("p", j)
     srcv = extra[0][1] if srcop[0] == "x" else P.vals[srcop[1]]
+    nb = c % 3 == 0  # copy_(src, non_blocking=True) is the same copy
+    if isinstance(d, QBytesTensor) and c % 5 == 4:
+        # a PLAIN float source into a quantized destination: its values are projected on the destination's grid
+        plain = gen.clamp_finite(_values(list(d.shape), d.dtype, 4500 + b, 1.0).to(torch.float64) * float(d._scale.abs().max().to(torch.float64)) * 60, d.dtype)
+        return dict(f=lambda d, s_: d.copy_(s_, non_blocking=nb), ops=[("p", i), ("x", 0)], extra=[("plain", plain)], klass="requant", inplace=0)
     # a copy between float dtypes is a dtype move: the float program rounds the source values to the source dtype first
     klass = "move" if getattr(srcv, "dtype", None) == d.dtype else "rescale"
-    return dict(f=lambda d, s_: d.copy_(s_), ops=[("p", i), srcop], extra=extra, klass=klass, inplace=0)
+    return dict(f=lambda d, s_: d.copy_(s_, non_blocking=nb), ops=[("p", i), srcop], extra=extra, klass=klass, inplace=0)
 
 
 def b_scalar(P, s, a, b, c, name):
@@ -416,6 +434,10 @@ def b_scalar(P, s, a, b, c, name):
         return dict(f=lambda t: t / kk, ops=[i], klass="rescale", factor=1.0 / abs(k))
     if name == "rdiv_scalar":
         return dict(f=lambda t: kk / t, ops=[i], klass="pass")
+    if name == "div_floor":
+        mode = ["floor", "trunc"][c % 2]
+        kd = kk if (isinstance(kk, float) and kk != 0) or isinstance(kk, torch.Tensor) else 4.0
+        return dict(f=lambda t: torch.div(t, kd, rounding_mode=mode), ops=[i], klass="pass")
 
 
 def b_unary(P, s, a, b, c, name):
@@ -559,6 +581,8 @@ def b_contract(P, s, a, b, c, name):
             bias = _values([p], dtype, 6100 + c, 1.0)
         if c % 4 == 3 and not isq(t):
             pass
+        if c % 4 == 1:
+            return dict(f=lambda x, w_: F.linear(x, weight=w_, bias=bias), ops=[("p", i), ("x", 0)], extra=[("fresh", w)], klass="contract", contract="linear", bias=bias)
         return dict(f=lambda x, w_: F.linear(x, w_, bias), ops=[("p", i), ("x", 0)], extra=[("fresh", w)], klass="contract", contract="linear", bias=bias)
     if name == "mm" or name == "matmul2":
         w = fresh_partner([k, p], dtype, a, 6200 + c)
@@ -608,7 +632,7 @@ for _n in ("split", "split_sizes", "chunk", "unbind"):
 for _n in ("clone", "detach", "contiguous", "to_copy", "to_dtype", "to_meta", "deepcopy"):
     BUILDERS[_n] = b_copy
 BUILDERS["copy_"] = b_copy_
-for _n in ("mul_scalar", "rmul_scalar", "div_scalar", "rdiv_scalar"):
+for _n in ("mul_scalar", "rmul_scalar", "div_scalar", "rdiv_scalar", "div_floor"):
     BUILDERS[_n] = b_scalar
 for _n in ("neg", "relu", "frelu", "softmax", "fsoftmax", "abs", "exp", "tanh", "gelu", "silu", "sum", "mean", "amax", "argmax", "sort", "cumsum",
            "log_softmax", "layer_norm", "topk", "zeros_like", "ones_like", "sign", "square", "isfinite", "std", "masked_fill", "tolist_sum", "numel", "size", "dim", "numpy_sum", "repr"):
@@ -628,7 +652,7 @@ SHARING_OPS = {"view", "reshape", "flatten", "unflatten", "t", "transpose", "per
 SOURCES = ["src_qa", "src_qa", "src_qw", "src_qbits", "src_plain"]
 INTERCEPTED = ["view", "reshape", "flatten", "unflatten", "t", "transpose", "permute", "mT", "slice", "select", "getitem0", "narrow", "unsqueeze",
                "squeeze", "expand", "expand_as1", "cat", "stack", "split", "split_sizes", "chunk", "unbind", "clone", "detach", "contiguous", "to_copy",
-               "to_dtype", "to_meta", "deepcopy", "copy_", "mul_scalar", "rmul_scalar", "div_scalar", "rdiv_scalar", "neg", "relu", "frelu", "softmax",
+               "to_dtype", "to_meta", "deepcopy", "copy_", "mul_scalar", "rmul_scalar", "div_scalar", "rdiv_scalar", "div_floor", "neg", "relu", "frelu", "softmax",
                "fsoftmax", "where", "lt", "lt_m", "lt_scalar", "mm", "matmul2", "bmm", "matmul", "linear", "linear_nobias", "linear_nd", "pad"]
 PASSTHROUGH = ["abs", "exp", "tanh", "gelu", "silu", "sum", "mean", "amax", "argmax", "sort", "cumsum", "log_softmax", "layer_norm", "topk", "zeros_like",
                "ones_like", "sign", "square", "isfinite", "std", "masked_fill", "tolist_sum", "numel", "size", "dim", "add", "sub", "mul_tensor",
